@@ -47,7 +47,7 @@
   genome; it is NOT excluded for `NewPopulationRandom` / hand-written populations (see DESIGN §3 C01, known_findings).
 
   ## Why each hypothesis is an invariant of real runs, or what float fact it stands for
-  * `PopOk` : `uid, spid, size, listed, nodup, nonempty` — `nextEpoch_popInv`; `pool` — `C01.nextEpoch_closed`
+  * `PopOk` : `uid, spid, size, perm, nodup, nonempty` — `nextEpoch_popInv`; `pool` — `C01.nextEpoch_closed`
     (established by `spawn_poolOk`); `unmarked`, `shaped` — babies are created unmarked and inherit the trait shape
     (`safe_nextEpoch_core`); `recs` — `finalizeReproduction` clears the records.  All re-established: `nextEpoch_popOk`.
   * `OptsOk.parents` : `floor(survival_thresh·n + 1) ≥ 1`; in exact arithmetic from `survival_thresh ≥ 0`
@@ -94,7 +94,7 @@ theorem nextEpoch_popOk (hff : FloatFacts W) (S : List Nat) (o : EpochOpts W) (p
   have hnew := (safe_nextEpoch_core hff.unitMul hff.pick S o p h gen rs hv).post he
   have hpool := nextEpoch_closed [] o gen p p' rs rs' (by simpa using h.pop.pool) he
   have hrec := nextEpoch_records o gen p p' rs rs' he
-  refine ⟨hu', hs', a1, a3, a2, a4, fun x hx => (hnew x hx).2, by simpa using hpool, ?_, ?_⟩
+  refine ⟨hu', hs', a1, a3 ▸ List.Perm.refl _, a2, a4, fun x hx => (hnew x hx).2, by simpa using hpool, ?_, ?_⟩
   · intro i hi; rw [hrec] at hi; cases hi
   · intro g hg
     obtain ⟨s, hs, x, hx, rfl⟩ := mem_genomesOfPop.mp hg
@@ -122,7 +122,7 @@ theorem popOk_eval (S : List Nat) (o : EpochOpts W) (q q' : Pop W) (h : PopOk S 
   obtain ⟨hu', hs'⟩ := sameShape_inv q q' hsh h.uid h.spid
   obtain ⟨h1, h2, h3, h4⟩ := hsh
   have huids : orgUids q'.species = orgUids q.species := by rw [uids_of_ukeys, h4, ← uids_of_ukeys]
-  refine ⟨hu', hs', by rw [h1]; exact h.size, by rw [h1, huids]; exact h.listed, by rw [h1]; exact h.nodup,
+  refine ⟨hu', hs', by rw [h1]; exact h.size, by rw [h1, huids]; exact h.perm, by rw [h1]; exact h.nodup,
     ne_of_keys h4 h.nonempty, ?_, ?_, by rw [hreg]; exact h.recs, fun g hg' => h.shaped g (hg g hg')⟩
   · intro x hx
     obtain ⟨s', hs'm, hxs⟩ := mem_allOrgs.mp hx
@@ -156,5 +156,54 @@ theorem runEpochs_no_error (hff : FloatFacts W) (S : List Nat) (o : EpochOpts W)
       exact ih (fun e he' => hev e (by simp [he'])) (gen + 1) p' rs'
         (valid_of_ok (nextEpoch_prefixDet o gen (ev p)) hv he)
         (nextEpoch_popOk hff S o (ev p) hyp gen rs rs' hv p' he) hq2 msg
+
+/-! ### the hypotheses are decidable, and not vacuous -/
+
+instance (p : Pop W) : Decidable (UidInv p) :=
+  if h : (∀ u ∈ orgUids p.species, u ∈ p.organisms) ∧ (∀ u ∈ p.organisms, u < p.nextUid) then isTrue ⟨h.1, h.2⟩
+  else isFalse (fun w => h ⟨w.1, w.2⟩)
+
+instance (p : Pop W) : Decidable (SpIdInv p) :=
+  if h : (p.species.map (·.id)).Nodup ∧ (∀ s ∈ p.species, s.id ≤ p.lastSpecies) then isTrue ⟨h.1, h.2⟩
+  else isFalse (fun w => h ⟨w.1, w.2⟩)
+
+instance (o : EpochOpts W) : Decidable (OptsOk o) :=
+  if h : 1 ≤ o.popSize ∧ 0 ≤ o.babiesStolen ∧ eq o.compatThreshold zero = false ∧ ActOk o.mopts ∧
+      (∀ n, n ≤ o.popSize → 1 ≤ C09.numParents o n) then isTrue ⟨h.1, h.2.1, h.2.2.1, h.2.2.2.1, h.2.2.2.2⟩
+  else isFalse (fun w => h ⟨w.1, w.2, w.3, w.4, w.5⟩)
+
+instance (S : List Nat) (o : EpochOpts W) (p : Pop W) : Decidable (PopOk S o p) :=
+  if h : UidInv p ∧ SpIdInv p ∧ p.organisms.length = o.popSize ∧ (orgUids p.species).Perm p.organisms ∧ p.organisms.Nodup ∧
+      (∀ s ∈ p.species, s.orgs ≠ []) ∧ (∀ x ∈ allOrgs p, x.toEliminate = false) ∧ PoolOk p.reg (genomesOfPop p) ∧
+      RecTraits S.length p.reg ∧ (∀ g ∈ genomesOfPop p, shape g = S)
+  then isTrue ⟨h.1, h.2.1, h.2.2.1, h.2.2.2.1, h.2.2.2.2.1, h.2.2.2.2.2.1, h.2.2.2.2.2.2.1, h.2.2.2.2.2.2.2.1,
+    h.2.2.2.2.2.2.2.2.1, h.2.2.2.2.2.2.2.2.2⟩
+  else isFalse (fun w => h ⟨w.1, w.2, w.3, w.4, w.5, w.6, w.7, w.8, w.9, w.10⟩)
+
+instance (S : List Nat) (o : EpochOpts W) (p : Pop W) : Decidable (Hyp S o p) :=
+  if h : OptsOk o ∧ PopOk S o p ∧ QuotaOk o p then isTrue ⟨h.1, h.2.1, h.2.2⟩ else isFalse (fun w => h ⟨w.1, w.2, w.3⟩)
+
+section NonVacuity
+open GoNeat.ExactInt
+attribute [local instance] intScalar
+
+/-- options for `tinyPop` (Props/C02Epoch.lean): three organisms, two species -/
+def tinyOpts : EpochOpts Int :=
+  { popSize := 3, dropOffAge := 15, ageSignificance := 1, survivalThresh := 0, babiesStolen := 0, compatThreshold := 3,
+    compat := { disjointCoeff := 1, excessCoeff := 1, mutdiffCoeff := 1, linear := true },
+    mutateOnlyProb := 1, mutateAddNodeProb := 1, mutateAddLinkProb := 1, mutateConnectSensors := 1,
+    interspeciesMateRate := 1, mateMultipointProb := 1, mateMultipointAvgProb := 1, mateSinglepointProb := 1,
+    mateOnlyProb := 1, mopts := C01.mo }
+
+/-- a concrete population and option setting satisfy every hypothesis of `nextEpoch_no_error` (trait shape `[0]`:
+    one trait without parameters) -/
+example : Hyp [0] tinyOpts tinyPop := by decide
+
+/-- the float facts hold for the toy instance (every draw is 0) -/
+example : FloatFacts Int :=
+  ⟨fun x t _ _ h => by simpa [Scalar.le, Scalar.mul, Scalar.ofUnit63, Scalar.zero, intScalar] using h,
+   fun x n _ hn _ => by simp [Scalar.floorInt, Scalar.mul, Scalar.div, Scalar.ofUnit63, Scalar.ofInt]; omega⟩
+
+end NonVacuity
 
 end GoNeat.C02
